@@ -1,6 +1,6 @@
 """C12: with TLS configured, https/wss traffic is never sent in the clear (level: other; tls configuration)."""
 import re
-from core import norm, L_call, L_variant, arms, assigns_to_return, closure_arg_of, sig, const_of
+from core import norm, L_call, L_variant, arms, assigns_to_return, closure_arg_of, sig, const_of, AbsPaths
 from mir import op_place
 import fwd
 import panics
@@ -26,7 +26,7 @@ CFG = ["tls"]
 
 
 def C12_1(ctx, facts):
-    f = facts.unit(facts.method("client::conn::transport::TlsTransport", "Service", "call"))
+    f = facts.unit(facts.method("client::conn::transport::TlsTransport", "Service", "call"), expand=True)
     ctx.touched(f)
     sw, reg = arms(f, "InnerBraid")
     if set(reg) != {"Plain", "Tls"}:
@@ -36,40 +36,63 @@ def C12_1(ctx, facts):
     ctx.floor("TlsTransport::call|tls-connect", len(tls_calls), 1, "TLS connect in the Tls arm")
     ctx.floor("TlsTransport::call|plain-connect-in-tls-arm", len(plain_in_tls), 1, "plain connect in the Tls arm")
 
-    def use_tls(val):
-        def pred(lab):
-            if lab.kind != "bool" or lab.value is not val:
-                return False
-            c = lab.cond
-            return c.kind == "call" and c.site.matches(r"Option.*::is_some_and$") and \
-                any(r.kind == "call" and r.site.is_("http::Uri::scheme_str", "http::uri::Uri::scheme_str") for r in f.roots(c.site.args[0]))
-        return pred
+    # the scheme test, whichever way it is spelled (is_some_and + matches!, matches!(.., Some(..)), a match, == chains): string
+    # comparisons of uri.scheme_str() with literals.  An edge is `secure` when it is the true edge of such a comparison.
+    def scheme_cmp(lab):
+        if lab.kind != "bool" or lab.value is None or lab.cond.kind != "call":
+            return None
+        c = lab.cond.site
+        if not (c.matches(r"PartialEq.*::eq$|str::traits::.*::eq$") and len(c.args) == 2):
+            return None
+        lit = None
+        other = None
+        for a_ in c.args:
+            k = a_.get("k")
+            v = (k or {}).get("v")
+            if v is None and op_place(a_) is not None:
+                rr0 = f.roots(a_, through_calls=False)
+                cs_ = [str(r.desc) for r in rr0 if r.kind == "const" and str(r.desc).startswith('"')]
+                v = cs_[0] if len(cs_) == 1 and len(rr0) == 1 else None
+            if v is not None and str(v).startswith('"'):
+                lit = str(v).strip('"')
+            else:
+                other = a_
+        if lit is None or other is None:
+            return None
+        if not any(r.kind == "call" and r.site.is_("http::Uri::scheme_str", "http::uri::Uri::scheme_str") for r in f.roots(other)):
+            return None
+        return (lit, lab.value)
 
+    lits = set()
+    secure = []
+    for (x, y, lab) in f.edges():
+        if lab is None:
+            continue
+        sc = scheme_cmp(lab)
+        if sc is None:
+            continue
+        lits.add(sc[0])
+        if sc[1] is True:
+            secure.append((x, y))
+    ctx.floor("TlsTransport::call|scheme-test", len(secure), 1, "comparisons of uri.scheme_str() with a literal")
+    ctx.check(lits == {"https", "wss"}, "TlsTransport::call|scheme-literals", "the secure schemes are exactly \"https\" and \"wss\"", "the scheme test compares against %s" % sorted(lits))
+    ap = AbsPaths(f)
+    sec = set(secure)
     for c in tls_calls:
-        ok, w = f.guarded(c.bb, use_tls(True))
-        ctx.check(ok, "TlsTransport::call|tls-iff-secure-scheme", "the TLS connect is chosen only when the scheme test holds", "TLS connect reachable without the scheme test", c.where(), f.path_desc(w))
+        ok, w = f.guarded(c.bb, lambda lab: scheme_cmp(lab) is not None and scheme_cmp(lab)[1] is True)
+        ctx.check(ok, "TlsTransport::call|tls-iff-secure-scheme", "the TLS connect is chosen only when the scheme compared equal to a secure literal", "TLS connect reachable without the scheme test", c.where(), f.path_desc(w))
     for c in plain_in_tls:
-        ok, w = f.guarded(c.bb, use_tls(False))
-        ctx.check(ok, "TlsTransport::call|plain-only-insecure-scheme", "with TLS configured the plain connect is reachable only when the scheme is not https/wss",
-                  "with TLS configured an https/wss request can be connected in the clear", c.where(), f.path_desc(w))
-    # the scheme test itself
-    tests = [c for c in f.calls() if c.matches(r"Option.*::is_some_and$")]
-    ctx.floor("TlsTransport::call|scheme-test", len(tests), 1, "scheme_str().is_some_and(..)")
-    for c in tests:
-        ck = closure_arg_of(f, c, 1)
-        body = facts.fns.get(ck) if ck else None
-        lits = set()
-        if body:
-            for b in body.live:
-                for s in body.stmts(b):
-                    if s["k"] == "assign" and s["r"]["k"] == "use" and s["r"]["o"].get("k") and str(s["r"]["o"]["k"].get("v", "")).startswith('"'):
-                        lits.add(s["r"]["o"]["k"]["v"].strip('"'))
-                t = body.term(b)
-                if t["k"] == "call":
-                    for a in t["args"]:
-                        if a.get("k") and str(a["k"].get("v", "")).startswith('"'):
-                            lits.add(a["k"]["v"].strip('"'))
-        ctx.check(lits == {"https", "wss"}, "TlsTransport::call|scheme-literals", "the secure schemes are exactly \"https\" and \"wss\"", "the scheme test compares against %s" % sorted(lits), c.where())
+        bad = None
+        for (x, y) in secure:
+            try:
+                reached, _ = ap.explore(y)
+            except AbsPaths.Undecided as e:
+                ctx.undecided("TlsTransport::call|plain-only-insecure-scheme", str(e), c.where())
+                reached = set()
+            if c.bb in reached:
+                bad = (x, y)
+        ctx.check(bad is None, "TlsTransport::call|plain-only-insecure-scheme", "with TLS configured no feasible path from a successful secure-scheme comparison reaches the plain connect",
+                  "with TLS configured an https/wss request can be connected in the clear", c.where())
     # plain arm: nothing to select
     ctx.ok("TlsTransport::call|plain-arm", "without a TLS configuration every request uses the plain transport (the property is conditional on a configuration)")
 
